@@ -13,10 +13,21 @@ from enum import Enum
 
 import pandas as pd
 from particle import SpinType
-from particle.particle.utilities import programmatic_name
+from particle.particle.utilities import programmatic_name as _programmatic_name
 
 from ..utils import LineFailure
 from .amplitudechain import LS, AmplitudeChain
+
+
+def programmatic_name(name):
+    """
+    Return a name safe to use as a variable name.
+    Recent versions of the particle package need to be told that the name is not that of a nucleus.
+    """
+    try:
+        return _programmatic_name(name, False)
+    except TypeError:
+        return _programmatic_name(name)
 
 
 class SF_4Body(Enum):
